@@ -1,8 +1,10 @@
-"""Async jobs: run episodes of one configuration on the real AsyncGraph and return RexTrace traces."""
-import jax
+"""Async jobs: run call histories of one configuration on the real AsyncGraph (free-running or under the gate)
+and return RexTrace traces plus lifecycle events (deadlock, exception, watchdog expiry)."""
+import traceback
+
 import numpy as onp
 
-from . import arun, trace
+from . import arun, gate, trace
 
 
 def features(t):
@@ -20,6 +22,8 @@ def features(t):
                 f.add("advance_before_schedule")
             if r["start"] > r["sched"] and r["tsmax"] == r["start"]:
                 f.add("waited_for_blocking_input")
+            if not cfg["nodes"][n]["freq"] and r["start"] == r["sched"] and r["seq"] > 0:
+                f.add("phase_on_grid")
     for x, ms in t["msgs"].items():
         c = cfg["conns"][x]
         starts = {r["seq"]: r["start"] for r in t["steps"][c["dst"]]}
@@ -31,12 +35,15 @@ def features(t):
             prev = m["recv"]
             per_in[m["seq_in"]] = per_in.get(m["seq_in"], 0) + 1
             st = starts.get(m["seq_in"])
-            if st is not None and st == m["recv"]:
-                f.add("tie_nonskip" if not c["skip"] else "tie_skip_consumed")
-            if c["skip"] and m["seq_in"] - 1 in starts and starts[m["seq_in"] - 1] == m["recv"]:
-                f.add("tie_skip_deferred")
+            if st is not None and st == m["recv"] and not c["blocking"]:
+                f.add("tie_consumed_nonskip")
+            if c["skip"] and not c["blocking"] and m["seq_in"] - 1 in starts and starts[m["seq_in"] - 1] == m["recv"]:
+                f.add("tie_deferred_skip_buffer" if c["buffer"] else "tie_deferred_skip")
             if c["buffer"]:
                 f.add("buffer")
+                exp = m["seq_out"] * cfg["nodes"][c["src"]]["period"]
+                if st is not None and m["seq_in"] - 1 in starts and m["recv"] <= starts[m["seq_in"] - 1]:
+                    f.add("buffer_held_back")
         if any(v > 1 for v in per_in.values()):
             f.add("multi_message_group")
         if any(v > c["window"] for v in per_in.values()):
@@ -48,8 +55,11 @@ def features(t):
 
 def run_async_job(job):
     cfg = job["cfg"]
-    rec = job.get("record")
-    h = arun.AsyncHarness(cfg, rtf=job.get("rtf", 0), jit_step=job.get("jit_step", True), record=rec,
+    S = None
+    if job.get("gate"):
+        S = gate.Scheduler(seed=0, policy="random", trace=bool(job.get("internal_trace")))
+        gate.install(S)
+    h = arun.AsyncHarness(cfg, rtf=job.get("rtf", 0), jit_step=job.get("jit_step", True), record=job.get("record"),
                           max_records=job.get("max_records"), seed=job.get("seed", 0),
                           use_callback=job.get("use_callback", True))
     init = h.initial()
@@ -58,23 +68,64 @@ def run_async_job(job):
     rs = h.record_settings
     rflags = {n: dict(inputs=bool(rs["inputs"]), state=bool(rs["state"]), output=bool(rs["output"]), rng=bool(rs["rng"]))
               for n in names}
-    out = dict(traces=[], meta=[], initial=init)
-    for ei, ep in enumerate(job["episodes"]):
-        eps = ep.get("eps", ei)
-        h.gs0 = h.gs0.replace(eps=onp.int32(eps))
+    out = dict(runs=[], initial=init)
+    ref = None
+    eps_next = 0
+    for ri, run in enumerate(job["runs"]):
+        rr = dict(traces=[], meta=[], events=[], history=run["history"], sched=run.get("sched"))
+        out["runs"].append(rr)
+        wd = None
+        on_boundary = None
+        if S is not None:
+            sc = run.get("sched", {})
+            S.new_schedule(seed=sc.get("seed", ri), policy=sc.get("policy", "random"), replay=sc.get("replay"))
+            on_boundary = S.quiesce
+        else:
+            to = job.get("call_timeout", 60)
+            wd = lambda f, w: arun.call_with_watchdog(f, to, w)  # noqa: E731
         try:
-            r = h.episode(style=ep.get("style", "step"), nsteps=ep.get("nsteps", 5), override=ep.get("override", False),
-                          timeout=job.get("call_timeout", 60))
+            eps_done, cur = arun.run_history(h, run["history"], wd=wd, on_boundary=on_boundary, eps0=eps_next, fixed_gs_eps=job.get("fixed_gs_eps"))
+        except gate.LogicalDeadlock as e:
+            rr["events"].append(dict(kind="deadlock", detail=str(e), choices=list(S.choices), npoints=S.n_points))
+            rr["fatal"] = True
+            break
         except arun.Hang as e:
-            out["hang"] = dict(episode=ei, call=str(e))
+            rr["events"].append(dict(kind="watchdog", detail=str(e)))
+            rr["fatal"] = True
             break
-        except TypeError as e:
-            # get_record() on a connection that consumed no message at all (outside the properties, DESIGN 1)
-            out["skipped"] = f"episode {ei}: get_record TypeError: {e}"
+        except Exception as e:  # a lifecycle call raised
+            rr["events"].append(dict(kind="exception", detail="".join(traceback.format_exception(type(e), e, e.__traceback__))[-3000:],
+                                     choices=list(S.choices) if S else None))
+            rr["fatal"] = True
             break
-        t = trace.build_trace(f"{job.get('id', 'job')}/e{ei}", cfg, r, init, rngidx=rngidx, eps=eps, epsrec=ei, rflags=rflags,
-                              check_log=job.get("check_log", True))
-        out["traces"].append(t)
-        out["meta"].append(dict(features=features(t), nrows={n: len(t["steps"][n]) for n in names},
-                                style=r["style"], nsteps=r["nsteps"], override=r["override"]))
+        if S is not None:
+            rr["npoints"] = S.n_points
+            rr["nchoices"] = len(S.choices)
+            if job.get("keep_choices"):
+                rr["choices"] = list(S.choices)
+            if S.task_errors:
+                rr["events"].append(dict(kind="task_error", detail=repr(S.task_errors[:3]), choices=list(S.choices)))
+            if S.trace_on:
+                rr["internal"] = list(S.trace)
+        for ei, r in enumerate(eps_done):
+            eps_next = r["eps"] + 1
+            if "record" not in r:
+                rr["events"].append(dict(kind="no_record", detail=r.get("record_error", "")))
+                continue
+            use_ref = ref if run.get("use_ref", True) and job.get("ref", False) else None
+            t = trace.build_trace(f"{job.get('id', 'job')}/r{ri}e{ei}", cfg, r, init, rngidx=rngidx, eps=r["gs_eps"], epsrec=r["eps"],
+                                  rflags=rflags, check_log=job.get("check_log", True),
+                                  ref=(trace.as_ref(use_ref) if use_ref is not None else None))
+            if job.get("trim_log_to_rows"):
+                for n in names:
+                    t["log"][n] = [e for e in t["log"][n] if e["seq"] < len(t["steps"][n])]
+            if ref is None and job.get("ref", False):
+                ref = t
+            rr["traces"].append(t)
+            rr["meta"].append(dict(features=features(t), nrows={n: len(t["steps"][n]) for n in names}, calls=r["calls"],
+                                   eps=r["eps"]))
+        if cur is not None:
+            eps_next = cur["eps"] + 1
+    if S is not None:
+        S.disable()
     return out
